@@ -1,5 +1,6 @@
 import PewProofs.Filters
 import PewProofs.FiltersFloat
+import PewProofs.FiltersArith
 
 /-! # C13 — property theorems (statements only depend on `PewModel.Filters`) -/
 namespace Pew.Filters
@@ -407,6 +408,80 @@ theorem unchanged_clause2 (h0 h1 n1 : Nat) (t : Option Rat) (x : List (List Rat)
 
 example : mustBeUnchanged (some 3) ([[1 / 10, 1 / 10, 1 / 10], [1 / 10, 1 / 10, 1 / 10]] : List (List Rat)).flatten = true := by
   decide +kernel
+
+/-! ## the constant clause for every arithmetic
+
+`constant_unchanged*` is about exact arithmetic.  What survives in any arithmetic: the mean filter is
+an instance of `rollingG*` (pad statistic, masked mean and outlier decision left open), and `rollingG*`
+returns a constant image unchanged as soon as pad statistic and masked mean return `c` for up to
+`b0·b1` copies of `c` — whatever the outlier decision, hence for every threshold and every way of
+computing window mean and spread. -/
+
+theorem rollingMean1_is_G (b : Nat) (t : Option Rat) (x : List Rat) :
+    rollingMean1 b t x
+      = rollingG1 mean mean (fun xi w => (meanCell xi w (w.eraseIdx (b / 2))).outlierSq t) b x := by
+  unfold rollingMean1 meanCells1 rollingG1 cellsG1
+  rw [List.map_zipWith]
+  rfl
+
+theorem rollingMean2_is_G (b0 b1 : Nat) (t : Option Rat) (x : List (List Rat)) :
+    rollingMean2 b0 b1 t x
+      = rollingG2 mean mean
+          (fun xi w => (meanCell xi w.flatten (maskCentre2 (b0 / 2) (b1 / 2) w)).outlierSq t) b0 b1 x := by
+  unfold rollingMean2 meanCells2 rollingG2 cellsG2
+  rw [List.map_zipWith]
+  congr 1
+  funext row wrow
+  rw [List.map_zipWith]
+  rfl
+
+/-- 1-D.  `N` bounds the number of copies the two statistics must get right; a window has `2h+1`. -/
+theorem constant_unchanged_any_arithmetic1 (π μm : List Rat → Rat) (dec : Rat → List Rat → Bool)
+    (N h : Nat) (x : List Rat) (c : Rat) (h1 : 1 ≤ h) (hN : 2 * h + 1 ≤ N)
+    (hπ : ∀ l : List Rat, l ≠ [] → l.length ≤ N → (∀ v ∈ l, v = c) → π l = c)
+    (hμ : ∀ l : List Rat, l ≠ [] → l.length ≤ N → (∀ v ∈ l, v = c) → μm l = c)
+    (hc : ∀ v ∈ x, v = c) : rollingG1 π μm dec (2 * h + 1) x = x :=
+  rollingG1_const π μm dec N h x c h1 hN hπ hμ hc
+
+/-- the exact mean is such a statistic (so `constant_unchanged1` for the mean filter is the instance
+`π = μm = mean`), for every `N` -/
+example (N : Nat) (c : Rat) : ∀ l : List Rat, l ≠ [] → l.length ≤ N → (∀ v ∈ l, v = c) → mean l = c :=
+  fun l hne _ h => mean_const l c hne h
+
+/-- 2-D; `1 ≤ n1`: the image has at least one column (the quantifier grants a whole window). -/
+theorem constant_unchanged_any_arithmetic2 (π μm : List Rat → Rat) (dec : Rat → List (List Rat) → Bool)
+    (N h0 h1 n1 : Nat) (x : List (List Rat)) (c : Rat) (hrect : ∀ r ∈ x, r.length = n1) (hh0 : 1 ≤ h0)
+    (hn1 : 1 ≤ n1) (hN : (2 * h0 + 1) * (2 * h1 + 1) ≤ N)
+    (hπ : ∀ l : List Rat, l ≠ [] → l.length ≤ N → (∀ v ∈ l, v = c) → π l = c)
+    (hμ : ∀ l : List Rat, l ≠ [] → l.length ≤ N → (∀ v ∈ l, v = c) → μm l = c)
+    (hc : ∀ r ∈ x, ∀ v ∈ r, v = c) : rollingG2 π μm dec (2 * h0 + 1) (2 * h1 + 1) x = x :=
+  rollingG2_const π μm dec N h0 h1 n1 x c hrect hh0 hn1 hN hπ hμ hc
+
+/-- Rounded arithmetic, 1-D.  `fl` any rounding function that returns the numbers of the binary format
+(`p` significand bits, least exponent `emin`) unchanged; means are computed left to right with every
+addition and the division rounded (`flMean fl`); `dec` any outlier decision.  If all partial sums `j·c`,
+`j ≤ 2h+1`, are numbers of the format, the constant signal `c` comes back unchanged. -/
+theorem constant_unchanged_rounded1 (fl : Rat → Rat) (p : Nat) (emin : Int) (dec : Rat → List Rat → Bool)
+    (h : Nat) (x : List Rat) (c : Rat) (h1 : 1 ≤ h) (hfl : ∀ q, isBin p emin q = true → fl q = q)
+    (hs : sumsExact p emin (2 * h + 1) c = true) (hc : ∀ v ∈ x, v = c) :
+    rollingG1 (flMean fl) (flMean fl) dec (2 * h + 1) x = x :=
+  rollingG1_const _ _ dec (2 * h + 1) h x c h1 (le_refl _)
+    (flMean_fixesConst fl p emin _ c hfl hs) (flMean_fixesConst fl p emin _ c hfl hs) hc
+
+/-- Rounded arithmetic, 2-D, partial sums up to `(2h0+1)(2h1+1)` copies. -/
+theorem constant_unchanged_rounded2 (fl : Rat → Rat) (p : Nat) (emin : Int)
+    (dec : Rat → List (List Rat) → Bool) (h0 h1 n1 : Nat) (x : List (List Rat)) (c : Rat)
+    (hrect : ∀ r ∈ x, r.length = n1) (hh0 : 1 ≤ h0) (hn1 : 1 ≤ n1)
+    (hfl : ∀ q, isBin p emin q = true → fl q = q)
+    (hs : sumsExact p emin ((2 * h0 + 1) * (2 * h1 + 1)) c = true) (hc : ∀ r ∈ x, ∀ v ∈ r, v = c) :
+    rollingG2 (flMean fl) (flMean fl) dec (2 * h0 + 1) (2 * h1 + 1) x = x :=
+  rollingG2_const _ _ dec _ h0 h1 n1 x c hrect hh0 hn1 (le_refl _)
+    (flMean_fixesConst fl p emin _ c hfl hs) (flMean_fixesConst fl p emin _ c hfl hs) hc
+
+/-- hypotheses met: binary64, a 7×7 window, `c = 5/4`; a crude rounding that is exact on the format -/
+example : sumsExact 53 (-1074) ((2 * 3 + 1) * (2 * 3 + 1)) (5 / 4) = true ∧
+    (∀ q, isBin 53 (-1074) q = true → (fun q => if isBin 53 (-1074) q then q else 0) q = q) := by
+  refine ⟨by decide +kernel, fun q hq => by simp [hq]⟩
 
 /-! ## float level: why a constant image of a non-dyadic value does not come back bit for bit
 
